@@ -11,6 +11,13 @@ def main():
         rec = json.load(open(sys.argv[2]))
         kind = rec.get("replay_kind")
         print(json.dumps(rec.get("native"), indent=1))
+        nat = rec.get("native") or {}
+        if rec.get("property") == "C16" and isinstance(nat.get("schedule"), dict):
+            # re-run the recorded two-activation schedule on the real code
+            from .checks.c16 import run_dynamic
+            out = run_dynamic("one_schedule", {"schedule": nat["schedule"], "cold": bool(nat.get("cold_start"))})
+            print(json.dumps(out, indent=1))
+            return 1 if out.get("confirmed") else 0
         if kind:
             out = native_replay(rec["property"], kind, {"obligation": rec["obligation"], "model": rec.get("model")})
             print(json.dumps(out, indent=1))
